@@ -18,15 +18,22 @@ from ..supp_common import ABSTRACT, META, REAL_CODE, render, settings_of  # noqa
 
 
 def observe_one(arg: tuple[int, dict]) -> list[dict]:
-    """Check one realised file; return its trace lines."""
+    """Check one realised file (codes disabled through command-line style settings); return its trace lines."""
+    tid, case = arg
+    return _observe(tid, case, None, None)
+
+
+def _observe(tid: int, case: dict, checker, modname) -> list[dict]:
     from pyanalyze import _verif_trace
 
-    tid, case = arg
     src = render(case)
     sink: list[dict] = []
     _verif_trace.set_sink(sink)
     try:
-        fails = pyz.check_source(src, settings=settings_of(case))
+        if checker is None:
+            fails = pyz.check_source(src, settings=settings_of(case))
+        else:
+            fails = pyz.check_source(src, checker=checker, module=pyz.make_module(src, name=modname))
     finally:
         _verif_trace.set_sink(None)
     lines = [{"tid": tid, "event": "Begin", "case": case, "src": src}]
@@ -57,8 +64,51 @@ def observe_one(arg: tuple[int, dict]) -> list[dict]:
     return lines
 
 
+def observe_override_group(arg: tuple[int, list[dict]]) -> list[list[dict]]:
+    """Route 'per-module override': one configuration file whose overrides give module vq_a the settings of case A and
+    module vq_b those of case B; ONE Checker checks B, A, B, A in turn (each module must keep its own settings)."""
+    import shutil
+    import tempfile
+    from pathlib import Path
+
+    from pyanalyze.name_check_visitor import NameCheckVisitor
+
+    base, (case_a, case_b) = arg
+    d = Path(tempfile.mkdtemp(prefix="c11cfg.", dir=str(core.scratch())))
+    lines = ["[tool.pyanalyze]"]
+    ovs = []
+    for mod, case in (("vq_a", case_a), ("vq_b", case_b)):
+        items = [f'module = "{mod}"'] + [f"{k} = {'true' if v else 'false'}" for k, v in sorted(settings_of(case).items())]
+        ovs.append("{" + ", ".join(items) + "}")
+    lines.append("overrides = [" + ", ".join(ovs) + "]")
+    (d / "pyproject.toml").write_text("\n".join(lines) + "\n")
+    kwargs = NameCheckVisitor.prepare_constructor_kwargs({"config_file": d / "pyproject.toml"})
+    checker = kwargs["checker"]
+    out = []
+    for j, (mod, case) in enumerate((("vq_b", case_b), ("vq_a", case_a), ("vq_b", case_b), ("vq_a", case_a))):
+        out.append(_observe(base + j, case, checker, mod))
+    shutil.rmtree(d, ignore_errors=True)
+    return out
+
+
+def judge_overrides(check: core.Check, cases: list[dict], label: str) -> None:
+    pairs = [(i * 4, [cases[k], cases[k + 1]]) for i, k in enumerate(range(0, len(cases) - 1, 2))
+             if cases[k]["disabled"] != cases[k + 1]["disabled"] or cases[k]["unused_on"] != cases[k + 1]["unused_on"]]
+    groups = core.pmap(observe_override_group, pairs, chunk=10)
+    per_case = [lines for g in groups for lines in g]
+    _adjudicate(check, per_case, label)
+
+
 def judge(check: core.Check, cases: list[dict], label: str) -> None:
     per_case = core.pmap(observe_one, list(enumerate(cases)), chunk=100)
+    _adjudicate(check, per_case, label)
+
+
+def _adjudicate(check: core.Check, per_case: list[list[dict]], label: str) -> None:
+    cases = [lines[0]["case"] for lines in per_case]
+    for i, lines in enumerate(per_case):      # re-number: tids are positions in per_case
+        for ln in lines:
+            ln["tid"] = i
     obs = [ln for lines in per_case for ln in lines]
     # batches must not split a Begin..End group
     batches: list[list[dict]] = [[]]
@@ -124,6 +174,11 @@ def run(check: core.Check) -> None:
     sim_cases = core.simulate_cases("SuppressionEmit", "Suppression.sim.cfg", 1500 if quick else 40000, depth=14,
                                     seed=check.seed + 11, check=check)
     judge(check, sim_cases, "tlc-simulate")
+    # the same cases with the codes disabled through per-module overrides of one configuration file, two modules with
+    # different settings sharing one Checker
+    ov = list(cases)
+    rnd.shuffle(ov)
+    judge_overrides(check, ov[: 1200 if quick else 40000], "per-module-override")
 
 
 def replay(check: core.Check, witness: dict) -> None:
